@@ -234,3 +234,101 @@ def check_C13(res, scratch, tier, seed):
     for tag, cfg in fams:
         run_family(res, scratch, tag, cfg, mk, builds=builds, mine=mine, timeout=3000)
     res.cov["exhaustive"] = True
+
+
+# ------------------------------------------------------------------ C14 / C15 (API-history machine)
+def api_cfg(slots, maxhist, las, matches, dbgs, invariants, view=False, flags=(0, 1)):
+    return """SPECIFICATION Spec
+CONSTANTS
+  Slots = {%s}
+  MaxHist = %d
+  LaVals %s
+  MatchVals = {%s}
+  DbgVals = {%s}
+  FlagVals = {%s}
+INVARIANTS %s
+%sCHECK_DEADLOCK FALSE
+""" % (",".join(map(str, slots)), maxhist, "<- LaWide" if min(las) < 0 else "= {%s}" % ",".join(map(str, las)), ",".join(map(str, matches)), ",".join(map(str, dbgs)),
+       ",".join(map(str, flags)), " ".join(invariants), "VIEW View\n" if view else "")
+
+
+def run_api(res, scratch, tier, seed, prop, owners):
+    builds = [build(scratch, "plain", ("yv_replay", "yv_api")), build(scratch, "asan", ("yv_replay", "yv_api"))]
+    res.cov["trusted_base"] = TB
+    # (D) exhaustive check of the machine's own invariants on a reduced configuration (history hidden by a VIEW)
+    t = run_tlc(scratch, "Api", api_cfg([1, 2], 40, [0, 2], [3], [0], ["TypeOK", "DefinedIffOk", "OkMeansAccepted"],
+                                        view=True, flags=(1,) if tier == "quick" else (0, 1)), "api_bfs", timeout=1500)
+    if t["status"] == "violation":
+        res.violation("spec-invariant:Api", {"tlc_tail": t["tail"][-2500:]})
+    elif t["status"] != "ok":
+        raise Infra("TLC Api bfs: %s\n%s" % (t["status"], t["tail"][-3000:]))
+    res.add_tlc(t)
+    # (V) behaviours printed by TLC in simulation mode, executed against the library
+    nbeh = 1500 if tier == "quick" else 12000
+    depth = 24 if tier == "quick" else 40
+    slots = [1, 2] if tier == "quick" else [1, 2, 3]
+    t = run_tlc(scratch, "Api", api_cfg(slots, depth, [-1, 0, 1, 2, 3], [0, 1, 3], [0, 2], ["EmitPools"]), "api_sim",
+                simulate=max(1, nbeh // NCPU), depth=depth + 3, timeout=1500, extra=("-seed", str(seed)))
+    if t["status"] not in ("ok", "timeout") and "states generated" not in t["tail"]:
+        raise Infra("TLC Api simulate: %s\n%s" % (t["status"], t["tail"][-3000:]))
+    pools, behs = None, []
+    for v in tlc_vectors(t["out"]):
+        if "defs" in v:
+            pools = pools or v
+        elif "hist" in v:
+            behs.append(v["hist"])
+    if pools is None or not behs:
+        raise Infra("no behaviours printed by TLC\n" + t["tail"][-2000:])
+    distinct = {json.dumps([(e["op"], e.get("d"), e.get("w"), e.get("which")) for e in h]) for h in behs}
+    res.cov["distinct_nontrivial"] += len(distinct)
+    res.cov["rule"] = ("TLC simulates the API-history machine spec/Api.tla (%d slots, definition pool of 8 good/defective definitions by callbacks and by "
+                       "description text, 11 inputs incl. undeclared codes inside a gap and outside the declared range, 4 allocator modes, all setters) and prints "
+                       "behaviours of %d calls with the result every call must have given only the slot's own state; the harness executes them (plain and ASan "
+                       "builds, two code assignments incl. code 0) comparing return code, error code/message, setter results, root/callbacks, allocator ledgers, "
+                       "trees re-serialised after all later calls; non-trivial = distinct call sequences" % (len(slots), depth))
+    for cm in ("gap", "gapzero"):
+        pool_lines, inputs = api_pool_lines(pools, codemap=cm)
+        blocks = [api_behaviour_block("b%d" % i, h, inputs) for i, h in enumerate(behs)]
+        blocks = [[b[0]] + pool_lines + b[1:] for b in blocks]
+        if len(res.cov["samples"]) < 2:
+            res.cov["samples"].append({"codemap": cm, "behaviour": blocks[len(blocks) // 2][len(pool_lines) + 1:]})
+        for bdir in builds:
+            recs, st = run_harness(os.path.join(bdir, "yv_api"), blocks)
+            for r in recs:
+                if r.get("k") == "summary":
+                    res.cov["evaluations"] += r.get("ops", 0)
+                elif r.get("k") == "mismatch":
+                    if api_owner(r["what"]) in owners:
+                        res.violation("%s|%s" % (api_owner(r["what"]), r["what"]), dict(r, codemap=cm, build=os.path.basename(bdir), behaviour=_beh_of(blocks, r.get("g"))))
+                    else:
+                        res.notes["other_property_mismatches"] = res.notes.get("other_property_mismatches", 0) + 1
+                elif r.get("e") == "Abort":
+                    blk = r.get("block")
+                    res.violation(abort_key(r), dict(r, codemap=cm, block=[l for l in (blk or []) if l[:2] in ("B ", "c ", "f ", "s ", "d ", "p ", "x")], build=os.path.basename(bdir)))
+            res.cov["traces_validated_against_impl"] += len(blocks)
+    res.notes["behaviours"] = len(behs)
+
+
+def _beh_of(blocks, g):
+    for b in blocks:
+        if b[0] == "G " + str(g):
+            return [l for l in b if l[:2] in ("B ", "c ", "f ", "s ", "d ", "p ", "x")]
+    return None
+
+
+def api_owner(what):
+    if what.startswith(("error_code", "error message", "setter", "default", "parse return code")):
+        return "C15"
+    if what.startswith(("parse_free", "parse_alloc", "terminal callback", "reachable node", "tree changed", "invalid parse_free")):
+        return "C13"
+    if what.startswith("definition return code"):
+        return "C10"
+    return "C14"
+
+
+def check_C14(res, scratch, tier, seed):
+    run_api(res, scratch, tier, seed, "C14", ("C14", "C10", "C13"))
+
+
+def check_C15(res, scratch, tier, seed):
+    run_api(res, scratch, tier, seed, "C15", ("C15",))
